@@ -632,6 +632,16 @@ func gen(rng *rand.Rand, tier core.Tier, emit core.Emit) {
 		emit("view", st, hx("1.1.1.1:10480"))
 		emit("add-ip", st, hx("1.1.1.1"), "10480")
 	}
+	// a control character inside the brackets of a code hides it from the code remover; whoever strips control characters
+	// AFTER removing codes puts the code back together
+	for _, c := range []string{"\u0095", "\u007f", "\u0001", "\u0085", "\u009f", "\t"} {
+		for _, hn := range []string{"[" + c + "b]Bold", "[" + c + "c=FF0000]Red [" + c + "u]x", "[\\" + c + "c]x", "[c" + c + "=ff0000]y", "[b" + c + "]z[" + c + "\\b]"} {
+			emit("html", hx(hn))
+			emit("clean", hx(hn))
+			st := fmt.Sprintf("p:1.1.1.1:10480:%d:10481:%s", randStatus(rng)|int(ds.Details), hx(hn))
+			emit("view", st, hx("1.1.1.1:10480"))
+		}
+	}
 	for depth := 1; depth <= 30; depth++ {
 		for k := 0; k < 3*scale; k++ {
 			hn := nestedHostname(rng, depth)
